@@ -21,6 +21,7 @@ S0 == [st |-> "start", fld |-> <<>>, rec |-> <<>>, out |-> <<>>]
 EndField(s)  == [s EXCEPT !.rec = Append(s.rec, s.fld), !.fld = <<>>, !.st = "fstart"]
 EndRecord(s) == [st |-> "start", fld |-> <<>>, rec |-> <<>>, out |-> Append(s.out, Append(s.rec, s.fld))]
 
+RECURSIVE Step(_, _, _)
 Step(s, c, dl) ==
   CASE s.st \in {"start", "fstart"} ->
          IF c = dl.quote THEN [s EXCEPT !.st = "quoted"]
